@@ -105,6 +105,8 @@ class Taint:
                             return True
                     elif kind in ("assign", "for", "with"):
                         tgt, value, idx = b
+                        if kind == "for" and isinstance(value, ast.Call) and norm(value.func) == "enumerate" and idx == 0:
+                            continue      # the index of enumerate() is an int made by the agent
                         if value is not None and self.tainted(value, f, b2):
                             return True
                     elif kind == "ann" and b.value is not None and self.tainted(b.value, f, b2):
